@@ -214,6 +214,16 @@ def check(ctx: Ctx, col: Collector, tier: str) -> None:
         col.bad("C05.UNION-NORMAL", key, repo.loc(GEN, gfi.node), f"{bad[:2]}", "the nullable shorthand T? is produced on a path that did not establish 'exactly two members, one of them Nothing?'")
     else:
         col.ok("C05.UNION-NORMAL", key, repo.loc(GEN, nullable[0].node), f"{len(nullable)} T? paths, each under len==2 and 'Nothing?' in members")
+    # the literal-or-None shorthand returns one member alone: only a union of exactly two members may be collapsed that way
+    collapsed = [o for o in rets if isinstance(o.value, App) and o.value.func.endswith("_create_type_string")]
+    key = f"{gkey}::union::literal-none-shorthand"
+    bad = [fmt_facts(o.facts)[:200] for o in collapsed if not any(re.match(r"len\(.*\)==2|2==len\(.*\)", k.replace(" ", "")) and v for k, v in o.facts)]
+    if bad or not collapsed:
+        col.bad("C05.UNION-NORMAL", key, repo.loc(GEN, collapsed[0].node if collapsed else gfi.node), f"{bad[:2]}" if bad else "no such path",
+                "a union is rendered as one of its members alone (the literal<..., null> shorthand) on a path that did not establish that the union has exactly two members: "
+                "every further member (`Literal['auto'] | int | None`) is dropped")
+    else:
+        col.ok("C05.UNION-NORMAL", key, repo.loc(GEN, collapsed[0].node), f"{len(collapsed)} paths render a single member of the union, each under len(types) == 2")
     single = [o for o in rets if isinstance(o.value, App) and o.value.func == "[]"]
     key = f"{gkey}::union::single"
     if single and all(any(re.match(r"len\(.*\)==1|1==len\(.*\)", k.replace(" ", "")) and v for k, v in o.facts) for o in single):
